@@ -201,7 +201,15 @@ func (w *memWriterAt) WriteAt(p []byte, off int64) (int, error) {
 	return len(p), nil
 }
 
-func parseGateArgs(args []string) (ver, hdr byte, mv encoder.MessageValidator, msgs []proto.Message, ok bool) {
+// gateSeq: one sequence of a gate line (the messages between two separators) and the separator that ends it:
+// "seq" (the sequence is completed: next Encode on the same Encoder / StreamEncoder.SequenceCompleted), "reset"
+// (Encoder.Reset / StreamEncoder.Reset with the same options, the same validator object included), "" (end of line)
+type gateSeq struct {
+	msgs []proto.Message
+	sep  string
+}
+
+func parseGateArgs(args []string) (ver, hdr byte, mv encoder.MessageValidator, seqs []gateSeq, ok bool) {
 	if len(args) < 5 {
 		return
 	}
@@ -217,23 +225,36 @@ func parseGateArgs(args []string) (ver, hdr byte, mv encoder.MessageValidator, m
 	if !ok {
 		return
 	}
+	var cur []proto.Message
 	for _, tok := range args[5:] {
+		if tok == "seq" || tok == "reset" {
+			if len(cur) == 0 { // a separator needs a sequence in front of it
+				return 0, 0, nil, nil, false
+			}
+			seqs = append(seqs, gateSeq{cur, tok})
+			cur = nil
+			continue
+		}
 		m, ok2 := parseMessage(tok)
 		if !ok2 {
 			return 0, 0, nil, nil, false
 		}
-		msgs = append(msgs, m)
+		cur = append(cur, m)
 	}
-	return ver, hdr, mv, msgs, true
+	if len(cur) > 0 {
+		seqs = append(seqs, gateSeq{cur, ""})
+	}
+	return ver, hdr, mv, seqs, len(seqs) > 0
 }
 
 func execEncGate(args []string) string {
-	ver, hdr, mv, msgs, ok := parseGateArgs(args)
-	if !ok || len(msgs) == 0 {
+	ver, hdr, mv, seqs, ok := parseGateArgs(args)
+	if !ok {
 		return "bad-op"
 	}
 	w := &memWriterAt{}
-	enc := encoder.New(w, encoder.WithProtocolVersion(proto.Version(ver)), encoder.WithMessageValidator(mv))
+	opts := []encoder.Option{encoder.WithProtocolVersion(proto.Version(ver)), encoder.WithMessageValidator(mv)}
+	enc := encoder.New(w, opts...)
 	// The model judges every Encode as if the encoder were fresh (gateBatch starts from the empty validator
 	// state). Two thirds of the lines therefore run on a USED encoder: one earlier Encode of a file that
 	// declares developer data ids 0..2 and fields (i, 0..2) and then either succeeds or fails validation half
@@ -250,15 +271,31 @@ func execEncGate(args []string) string {
 			_ = enc.Encode(encgatePoison(k == 2))
 		}()
 	}
-	fit := &proto.FIT{FileHeader: proto.FileHeader{ProtocolVersion: proto.Version(hdr)}, Messages: msgs}
-	if err := enc.Encode(fit); err != nil {
-		return errKind(err)
+	// one Encode per sequence on the SAME encoder (a chain of FIT files); "reset" = Encoder.Reset with the same options
+	var answers []string
+	for _, sq := range seqs {
+		fit := &proto.FIT{FileHeader: proto.FileHeader{ProtocolVersion: proto.Version(hdr)}, Messages: sq.msgs}
+		answers = append(answers, func() (r string) {
+			defer func() {
+				if recover() != nil {
+					r = "panic"
+				}
+			}()
+			if err := enc.Encode(fit); err != nil {
+				return errKind(err)
+			}
+			var out []string
+			for i := range fit.Messages {
+				out = append(out, printMessage(&fit.Messages[i]))
+			}
+			return "ok:" + strings.Join(out, ",")
+		}())
+		if sq.sep == "reset" {
+			w = &memWriterAt{}
+			enc.Reset(w, opts...)
+		}
 	}
-	var out []string
-	for i := range fit.Messages {
-		out = append(out, printMessage(&fit.Messages[i]))
-	}
-	return "ok:" + strings.Join(out, ",")
+	return strings.Join(answers, " ")
 }
 
 // encgatePoison is the file a used encoder has seen before: developer data ids 0..2, field descriptions
@@ -294,28 +331,47 @@ func encgatePoison(fail bool) *proto.FIT {
 }
 
 func execStreamGate(args []string) string {
-	ver, hdr, mv, msgs, ok := parseGateArgs(args)
+	ver, hdr, mv, seqs, ok := parseGateArgs(args)
 	if !ok || hdr != 0 { // the stream encoder's private file header always starts unspecified
 		return "bad-op"
 	}
 	w := &memWriterAt{}
-	se, err := encoder.NewStream(w, encoder.WithProtocolVersion(proto.Version(ver)), encoder.WithMessageValidator(mv))
+	opts := []encoder.Option{encoder.WithProtocolVersion(proto.Version(ver)), encoder.WithMessageValidator(mv)}
+	se, err := encoder.NewStream(w, opts...)
 	if err != nil {
 		return "bad-op"
 	}
 	var out []string
-	for i := range msgs {
-		out = append(out, func() (r string) {
-			defer func() {
-				if recover() != nil {
-					r = "panic"
+	for _, sq := range seqs {
+		msgs := sq.msgs
+		for i := range msgs {
+			out = append(out, func() (r string) {
+				defer func() {
+					if recover() != nil {
+						r = "panic"
+					}
+				}()
+				if err := se.WriteMessage(&msgs[i]); err != nil {
+					return errKind(err)
 				}
-			}()
-			if err := se.WriteMessage(&msgs[i]); err != nil {
-				return errKind(err)
+				return "ok:" + printMessage(&msgs[i])
+			}())
+		}
+		switch sq.sep {
+		case "seq": // the sequence is completed; the next WriteMessage starts a new FIT file on the same StreamEncoder
+			if err := se.SequenceCompleted(); err != nil {
+				out = append(out, "seq:err")
+			} else {
+				out = append(out, "seq")
 			}
-			return "ok:" + printMessage(&msgs[i])
-		}())
+		case "reset":
+			w = &memWriterAt{}
+			if err := se.Reset(w, opts...); err != nil {
+				out = append(out, "reset:err")
+			} else {
+				out = append(out, "reset")
+			}
+		}
 	}
 	return strings.Join(out, " ")
 }
@@ -503,7 +559,7 @@ func (lb *lineBuilder) scan(msgs []proto.Message) {
 	var fds []fdView
 	for mi := range msgs {
 		m := &msgs[mi]
-		if isResetTok(m) {
+		if isResetTok(m) || isSeqTok(m) { // a new sequence starts from a fresh validator
 			fds = nil
 			continue
 		}
@@ -762,6 +818,11 @@ func isResetTok(m *proto.Message) bool {
 	return m.Num == 0xffff && m.Fields == nil && m.DeveloperFields == nil
 }
 
+// a pseudo message standing for the end of a sequence in a gate line ("seq": next Encode / SequenceCompleted)
+func isSeqTok(m *proto.Message) bool {
+	return m.Num == 0xfffe && m.Fields == nil && m.DeveloperFields == nil
+}
+
 func cloneMsgs(msgs []proto.Message) []proto.Message {
 	out := make([]proto.Message, len(msgs))
 	for i := range msgs {
@@ -777,6 +838,10 @@ func printMsgs(msgs []proto.Message) string {
 	for i := range msgs {
 		if isResetTok(&msgs[i]) {
 			parts[i] = "reset"
+			continue
+		}
+		if isSeqTok(&msgs[i]) {
+			parts[i] = "seq"
 			continue
 		}
 		parts[i] = printMessage(&msgs[i])
@@ -1148,6 +1213,8 @@ func genValidate(emit func(string), tier string, rng *Rng) {
 	insideOnly = false
 	// --- j. state a validator could keep stale: sequences with colliding native mappings, re-descriptions, Reset (fam_validate_state.go)
 	genValidateState(emitSeq, thorough, rng)
+	// --- k. SEVERAL sequences through ONE real Encoder / StreamEncoder (fam_validate_seqs.go)
+	genValidateSeqs(emitSeq, thorough, rng)
 }
 
 func genProtoValidate(emit func(string), tier string, rng *Rng) {
